@@ -137,6 +137,7 @@ class Kernel:
             # kept, so the rules about the queue itself can say what they do not recognise; other properties are unaffected)
             self.queue_attr, self.queue_ctor = self._queue_from_put()
         self.sentinel_attr, _ = self._attr_assigned_from(("object",))
+        self.initial_transition_name = self._find_initial_transition()
         self.registry = program.cls("CallbacksRegistry")
         self.executor = program.cls("CallbacksExecutor")
         self.wrapper = program.cls("CallbackWrapper")
@@ -144,6 +145,16 @@ class Kernel:
         self.groupers = self._read_groupers()
 
     # ------------------------------------------------------------------ discovery
+    def _find_initial_transition(self) -> str:
+        """Name of the BaseEngine method that builds the initial pseudo-transition (`Transition(State(), <initial state>, ...)`)."""
+        for ms in self.base.methods.values():
+            for m in ms:
+                for n in own_nodes(m.node):
+                    if isinstance(n, ast.Call) and isinstance(n.func, ast.Name) and n.func.id == "Transition" and n.args \
+                            and isinstance(n.args[0], ast.Call) and isinstance(n.args[0].func, ast.Name) and n.args[0].func.id == "State":
+                        return m.name
+        raise AnalysisError("anchor lost: the BaseEngine method that builds the initial pseudo-transition")
+
     def _queue_from_put(self) -> Tuple[str, str]:
         put = self.base.method("put")
         if put is None or len(put.params) < 2:
